@@ -595,10 +595,14 @@ func (c *pkgCtx) lockRewrite(x *ast.ExprStmt) ast.Stmt {
 	}
 	report.LockRewritten++
 	c.usedRT = true
-	return &ast.ForStmt{
+	loop := &ast.ForStmt{
 		Cond: &ast.UnaryExpr{Op: token.NOT, X: &ast.CallExpr{Fun: &ast.SelectorExpr{X: sel.X, Sel: ast.NewIdent(try)}}},
 		Body: &ast.BlockStmt{List: []ast.Stmt{&ast.ExprStmt{X: rtCall("Yield")}}},
 	}
+	return &ast.BlockStmt{List: []ast.Stmt{
+		&ast.ExprStmt{X: rtCall("StepLock", intLit(c.newSite(x, "lock")))},
+		loop,
+	}}
 }
 
 func isBlank(e ast.Expr) bool {
